@@ -36,6 +36,20 @@ if SYMBOLIC:
     rematch.install()
     models.install()
 
+    # CrossHair randomly "prematurely realises" integer arguments as a bug-finding heuristic
+    # (a parallel branch: exhausting the symbolic branch alone already confirms the node).
+    # For exhaustive checking those branches are wasted paths, so they are switched off.
+    import crosshair.statespace as _ss0
+
+    _orig_fork_parallel = _ss0.StateSpace.fork_parallel
+
+    def _fork_parallel(self, false_probability, desc=""):
+        if isinstance(desc, str) and desc.startswith("premature realize"):
+            return False
+        return _orig_fork_parallel(self, false_probability, desc)
+
+    _ss0.StateSpace.fork_parallel = _fork_parallel
+
     # ---- statistics for the evidence file (paths, solver queries, solver time) ----
     _stats_file = os.environ.get("VERIF_STATS_FILE")
     if _stats_file:
